@@ -358,6 +358,120 @@ Proof.
   apply (equals_loop_sim _ c' s'). repeat split; auto.
 Qed.
 
+
+(* ---- iteration with a callback that re-enters the hash ---- *)
+
+Lemma map_fst_eset snap : forall p v, map fst (eset snap p v) = map fst snap.
+Proof.
+  induction snap as [|[k w] r IH]; intros [|p] v; cbn [eset map fst]; try reflexivity.
+  now rewrite IH.
+Qed.
+
+Lemma map_fst_snap_after h a al snap : map fst (snap_after h a al snap) = map fst snap.
+Proof.
+  destruct a; cbn [snap_after]; try reflexivity. destruct al; [|reflexivity].
+  destruct (alookup (index h) k); [apply map_fst_eset|reflexivity].
+Qed.
+
+Lemma length_snap_after h a al snap : length (snap_after h a al snap) = length snap.
+Proof. rewrite <- (map_length fst), map_fst_snap_after. apply map_length. Qed.
+
+Lemma snap_after_plain h a al snap : act_plain a = true -> snap_after h a al snap = snap.
+Proof. destruct a; cbn; try reflexivity; discriminate. Qed.
+
+Lemma plain_next acts a stop : acts_plain acts = true -> next_act acts = (a, stop) ->
+  act_plain a = true /\ acts_plain (tl acts) = true.
+Proof.
+  destruct acts as [|[a0 st0] r]; cbn [next_act tl acts_plain forallb fst]; intros Hp He.
+  - inversion He; subst. auto.
+  - inversion He; subst. now apply andb_true_iff in Hp.
+Qed.
+
+Lemma skipn_nth {A} (l : list A) : forall i x, nth_error l i = Some x -> skipn i l = x :: skipn (S i) l.
+Proof.
+  induction l as [|y l IH]; intros [|i] x H; cbn in H; try discriminate.
+  - now inversion H.
+  - cbn [skipn]. now apply IH.
+Qed.
+
+Lemma map_const_len {A B} (l : list A) (l' : list B) (c : Z) : length l = length l' ->
+  map (fun _ => c) l = map (fun _ => c) l'.
+Proof.
+  revert l'; induction l as [|x l IH]; intros [|y l'] H; cbn in *; try discriminate; [reflexivity|].
+  f_equal. apply IH. now inversion H.
+Qed.
+
+Lemma iter_out_erase kind (acc acc' : list (str * val)) st : map fst acc = map fst acc' ->
+  erase_values (iter_out kind acc st) = erase_values (iter_out kind acc' st).
+Proof.
+  intros H. assert (Hl : length acc = length acc') by (rewrite <- (map_length fst acc), H; apply map_length).
+  unfold iter_out, erase_values. rewrite H.
+  destruct kind; cbn [map]; rewrite ?map_map; f_equal; now apply map_const_len.
+Qed.
+
+Lemma act_sim c s a : rel c s ->
+  rel (fst (act_step c a)) (fst (s_act_step s a)) /\ snd (act_step c a) = snd (s_act_step s a).
+Proof.
+  intros R. destruct a; cbn [act_step s_act_step].
+  - cbn. auto.
+  - now apply delete_sim.
+  - now apply put_sim.
+  - now apply compute_sim.
+Qed.
+
+(* the loop of the index model over the array it started on against the loop of the abstract map over the entries
+   it started with: same keys handed out, same final map; same values too when the callback does not put *)
+Lemma iter_loop_sim kind n : forall c s snap al i acts acc acc' snap0,
+  rel c s -> map fst snap = map fst snap0 -> (i + n = length snap)%nat -> map fst acc = map fst acc' ->
+  rel (fst (iter_loop kind c snap al i n acts acc)) (fst (s_iter_loop kind s (skipn i snap0) acts acc')) /\
+  erase_values (snd (iter_loop kind c snap al i n acts acc)) =
+    erase_values (snd (s_iter_loop kind s (skipn i snap0) acts acc')) /\
+  (acts_plain acts = true -> snap = snap0 -> acc = acc' ->
+   snd (iter_loop kind c snap al i n acts acc) = snd (s_iter_loop kind s (skipn i snap0) acts acc')).
+Proof.
+  induction n as [|n IH]; intros c s snap al i acts acc acc' snap0 R Hk Hn Ha;
+    assert (Hl : length snap0 = length snap) by (rewrite <- (map_length fst snap0), <- Hk; apply map_length).
+  - rewrite skipn_all2 by lia. cbn [iter_loop s_iter_loop fst snd].
+    split; [exact R|]. split; [now apply iter_out_erase|]. intros _ _ ->. reflexivity.
+  - destruct (nth_error snap i) as [e|] eqn:Ee; [|apply nth_error_None in Ee; lia].
+    destruct (nth_error snap0 i) as [e0|] eqn:Ee0; [|apply nth_error_None in Ee0; lia].
+    assert (Hfe : fst e = fst e0).
+    { pose proof (map_nth_error fst _ _ Ee) as H1. pose proof (map_nth_error fst _ _ Ee0) as H2.
+      rewrite Hk in H1. congruence. }
+    rewrite (skipn_nth _ _ _ Ee0). cbn [iter_loop s_iter_loop]. rewrite Ee.
+    destruct (next_act acts) as [a stop] eqn:Ea.
+    destruct (act_sim c s a R) as [R' Ho].
+    destruct (act_step c a) as [c' o] eqn:Ec; destruct (s_act_step s a) as [s' o'] eqn:Es;
+      cbn [fst snd] in R', Ho. subst o'.
+    assert (Hacc : map fst (acc ++ [e]) = map fst (acc' ++ [e0]))
+      by (rewrite !map_app, Ha; cbn [map]; now rewrite Hfe).
+    destruct o; try solve [split; [exact R'|split; [reflexivity|intros; reflexivity]]].
+    all: destruct (stops kind stop).
+    all: try solve [ split; [exact R'|split; [now apply iter_out_erase|]];
+        intros _ Hs Hacc'; rewrite Hs in Ee; assert (He : e = e0) by congruence; now rewrite He, Hacc' ].
+    all: assert (Hk' : map fst (snap_after c a al snap) = map fst snap0)
+      by (rewrite map_fst_snap_after; exact Hk).
+    all: assert (Hn' : (S i + n = length (snap_after c a al snap))%nat) by (rewrite length_snap_after; lia).
+    all: destruct (IH c' s' (snap_after c a al snap) (al && same_array c c') (S i) (tl acts) (acc ++ [e])
+                    (acc' ++ [e0]) snap0 R' Hk' Hn' Hacc) as (H1 & H2 & H3).
+    all: split; [exact H1|split; [exact H2|]].
+    all: intros Hp Hs Hacc'; destruct (plain_next _ _ _ Hp Ea) as [Hpa Hpt].
+    all: apply H3; [exact Hpt|rewrite snap_after_plain by exact Hpa; exact Hs|].
+    all: rewrite Hs in Ee; assert (He : e = e0) by congruence; now rewrite He, Hacc'.
+Qed.
+
+Lemma iterate_sim kind c s acts : rel c s ->
+  rel (fst (iterate kind c acts)) (fst (s_iterate kind s acts)) /\
+  erase_values (snd (iterate kind c acts)) = erase_values (snd (s_iterate kind s acts)) /\
+  (acts_plain acts = true -> snd (iterate kind c acts) = snd (s_iterate kind s acts)).
+Proof.
+  intros R. unfold iterate, s_iterate. pose proof R as (He & _). rewrite <- He.
+  destruct (iter_loop_sim kind (length (entries c)) c s (entries c) true 0%nat acts [] [] (entries c) R
+              eq_refl eq_refl eq_refl) as (H1 & H2 & H3).
+  cbn [skipn] in H1, H2, H3. split; [exact H1|split; [exact H2|]].
+  intros Hp. exact (H3 Hp eq_refl eq_refl).
+Qed.
+
 (* ---- heaps ---- *)
 
 Definition hrel (hp : heap) (sp : sheap) : Prop := Forall2 rel hp sp.
@@ -387,10 +501,10 @@ Proof. induction 1; cbn; auto. Qed.
 Lemma rel_copy c s : rel c s -> rel (copy c) (mkS (sents s) false).
 Proof. intros (He & Hf & Hn & Hi). repeat split; auto. Qed.
 
-Lemma rel_freeze c s : rel c s -> rel (mkSh (entries c) (index c) true) (mkS (sents s) true).
+Lemma rel_freeze c s : rel c s -> rel (mkSh (entries c) (index c) true (cap c)) (mkS (sents s) true).
 Proof. intros (He & Hf & Hn & Hi). repeat split; auto. Qed.
 
-Lemma rel_empty : rel (mkSh [] [] false) (mkS [] false).
+Lemma rel_empty n : rel (mkSh [] [] false n) (mkS [] false).
 Proof. repeat split; cbn; auto. constructor. Qed.
 
 Ltac obj hp sp i H c s R :=
@@ -398,11 +512,12 @@ Ltac obj hp sp i H c s R :=
   destruct (nth_error hp i) as [c|], (nth_error sp i) as [s|]; try contradiction;
   [|split; [assumption|reflexivity]].
 
-Lemma step_sim hp sp o : hrel hp sp -> op_ok o = true ->
+Lemma step_sim hp sp o : hrel hp sp -> op_ok o = true -> op_plain o = true ->
   hrel (fst (step hp o)) (fst (s_step sp o)) /\ snd (step hp o) = snd (s_step sp o).
 Proof.
-  intros H Hok. pose proof (hrel_len _ _ H) as Hlen.
-  destruct o as [|i k v|i k|i k|i k d|i k|i k v|i|i j|i j|i|i|i|i|i|i|i|i j|i k|i k v k2 v2]; cbn [step s_step].
+  intros H Hok Hpl. pose proof (hrel_len _ _ H) as Hlen.
+  destruct o as [|i k v|i k|i k|i k d|i k|i k v|i|i j|i j|i|i|i|i|i|i|i|i j|i k|i k v k2 v2|cp|i kind acts];
+    cbn [step s_step].
   - cbn. split; [apply hrel_snoc; auto using rel_empty|now rewrite Hlen].
   - obj hp sp i H c s R. destruct (put_sim c s k v R) as [R' Ho].
     unfold upd, s_upd; cbn. split; [now apply hrel_set|assumption].
@@ -438,22 +553,60 @@ Proof.
   - obj hp sp i H c s R. cbn [op_ok] in Hok. apply negb_true_iff, str_eqb_neq in Hok.
     destruct (compute_put_sim c s k v k2 v2 R Hok) as [R' Ho].
     unfold upd, s_upd; cbn. split; [now apply hrel_set|assumption].
+  - cbn. split; [apply hrel_snoc; auto using rel_empty|now rewrite Hlen].
+  - obj hp sp i H c s R. cbn [op_plain] in Hpl. destruct (iterate_sim kind c s acts R) as (R' & _ & Ho).
+    unfold upd, s_upd; cbn [fst snd]. split; [now apply hrel_set|now apply Ho].
 Qed.
 
-Lemma run_sim ops : forall hp sp, hrel hp sp -> ops_ok ops = true ->
+(* every operation, whatever the callbacks do: same state, same results up to the values an iteration shows *)
+Lemma step_sim_erase hp sp o : hrel hp sp -> op_ok o = true ->
+  hrel (fst (step hp o)) (fst (s_step sp o)) /\
+  erase_values (snd (step hp o)) = erase_values (snd (s_step sp o)).
+Proof.
+  intros H Hok. destruct (op_plain o) eqn:Hpl.
+  - destruct (step_sim hp sp o H Hok Hpl) as [A B]. split; [exact A|now rewrite B].
+  - destruct o; try discriminate. cbn [step s_step].
+    obj hp sp h H c s R.
+    destruct (iterate_sim kind c s acts R) as (R' & Ho & _).
+    unfold upd, s_upd; cbn [fst snd]. split; [now apply hrel_set|exact Ho].
+Qed.
+
+Lemma run_sim ops : forall hp sp, hrel hp sp -> ops_ok ops = true -> ops_plain ops = true ->
   hrel (fst (run hp ops)) (fst (s_run sp ops)) /\ snd (run hp ops) = snd (s_run sp ops).
 Proof.
-  induction ops as [|o r IH]; cbn [run s_run]; intros hp sp H Hok; [auto|].
+  induction ops as [|o r IH]; cbn [run s_run]; intros hp sp H Hok Hpl; [auto|].
   unfold ops_ok in Hok. cbn [forallb] in Hok. apply andb_true_iff in Hok as [Hok Hokr].
-  destruct (step_sim hp sp o H Hok) as [H' Ho].
+  unfold ops_plain in Hpl. cbn [forallb] in Hpl. apply andb_true_iff in Hpl as [Hpl Hplr].
+  destruct (step_sim hp sp o H Hok Hpl) as [H' Ho].
   destruct (step hp o) as [hp' x]; destruct (s_step sp o) as [sp' x']; cbn in *. subst x'.
-  destruct (IH hp' sp' H' Hokr) as [H'' Ho'].
+  destruct (IH hp' sp' H' Hokr Hplr) as [H'' Ho'].
   destruct (run hp' r) as [hp'' xs]; destruct (s_run sp' r) as [sp'' xs']; cbn in *.
   split; [assumption|congruence].
 Qed.
 
-Theorem stringhash_refines ops : ops_ok ops = true -> snd (run [] ops) = snd (s_run [] ops).
-Proof. intros Hok. apply (run_sim ops [] []); [constructor|exact Hok]. Qed.
+Lemma run_sim_erase ops : forall hp sp, hrel hp sp -> ops_ok ops = true ->
+  hrel (fst (run hp ops)) (fst (s_run sp ops)) /\
+  map erase_values (snd (run hp ops)) = map erase_values (snd (s_run sp ops)).
+Proof.
+  induction ops as [|o r IH]; cbn [run s_run]; intros hp sp H Hok; [auto|].
+  unfold ops_ok in Hok. cbn [forallb] in Hok. apply andb_true_iff in Hok as [Hok Hokr].
+  destruct (step_sim_erase hp sp o H Hok) as [H' Ho].
+  destruct (step hp o) as [hp' x]; destruct (s_step sp o) as [sp' x']; cbn [fst snd] in *.
+  destruct (IH hp' sp' H' Hokr) as [H'' Ho'].
+  destruct (run hp' r) as [hp'' xs]; destruct (s_run sp' r) as [sp'' xs']; cbn [fst snd map] in *.
+  split; [assumption|congruence].
+Qed.
+
+(* callbacks that delete, compute or do nothing: every result is the abstract map's *)
+Theorem stringhash_refines ops : ops_ok ops = true -> ops_plain ops = true ->
+  snd (run [] ops) = snd (s_run [] ops).
+Proof. intros Hok Hpl. apply (run_sim ops [] []); [constructor|exact Hok|exact Hpl]. Qed.
+
+(* any callbacks: every result is the abstract map's, except that nothing is said of the values an iteration
+   hands to a callback (their number, the keys, the result of AllPair / AnyPair and the map afterwards are) *)
+Theorem stringhash_refines_reentrant ops : ops_ok ops = true ->
+  map erase_values (snd (run [] ops)) = map erase_values (snd (s_run [] ops)).
+Proof. intros Hok. apply (run_sim_erase ops [] []); [constructor|exact Hok]. Qed.
 
 (* ---- consequences, stated on the abstract map ---- *)
 
@@ -485,13 +638,30 @@ Proof.
   destruct o; cbn in *; auto.
 Qed.
 
+Lemma s_act_no_fault h a : is_fault (snd (s_act_step h a)) = false.
+Proof.
+  destruct a; cbn [s_act_step]; auto using s_put_no_fault, s_delete_no_fault, s_compute_no_fault.
+Qed.
+
+Lemma s_iter_loop_no_fault kind : forall pend h acts acc,
+  is_fault (snd (s_iter_loop kind h pend acts acc)) = false.
+Proof.
+  induction pend as [|e r IH]; intros h acts acc; cbn [s_iter_loop]; [reflexivity|].
+  destruct (next_act acts) as [a stop]. pose proof (s_act_no_fault h a) as Hf.
+  destruct (s_act_step h a) as [h1 o1]; cbn [snd] in Hf.
+  destruct o1; try discriminate; try reflexivity; destruct (stops kind stop); try reflexivity; apply IH.
+Qed.
+
+Lemma s_iterate_no_fault kind h acts : is_fault (snd (s_iterate kind h acts)) = false.
+Proof. apply s_iter_loop_no_fault. Qed.
+
 Lemma s_step_no_fault sp o : is_fault (snd (s_step sp o)) = false.
 Proof.
   destruct o; cbn [s_step]; unfold s_with, s_upd;
     repeat match goal with |- context [nth_error sp ?i] => destruct (nth_error sp i) end;
     cbn [snd fst is_fault]; try reflexivity;
     auto using s_put_no_fault, s_delete_no_fault, s_compute_no_fault, s_put_all_no_fault,
-      s_compute_panic_no_fault, s_compute_put_no_fault.
+      s_compute_panic_no_fault, s_compute_put_no_fault, s_iterate_no_fault.
   match goal with |- context [s_put_all ?a ?b] =>
     pose proof (s_put_all_no_fault b a) as Hp; destruct (s_put_all a b) as [m0 o0] end.
   cbn in *. destruct o0; cbn in *; auto.
@@ -505,9 +675,18 @@ Proof.
   destruct (s_run sp' r) as [sp'' xs]; cbn in *. now rewrite Hs, IH.
 Qed.
 
+Lemma forallb_no_fault_erase l :
+  forallb (fun o => negb (is_fault o)) (map erase_values l) = forallb (fun o => negb (is_fault o)) l.
+Proof.
+  induction l as [|o l IH]; cbn [map forallb]; [reflexivity|]. rewrite IH. now destruct o.
+Qed.
+
 Theorem stringhash_never_faults ops : ops_ok ops = true ->
   forallb (fun o => negb (is_fault o)) (snd (run [] ops)) = true.
-Proof. intros Hok. rewrite stringhash_refines by exact Hok. apply s_run_no_fault. Qed.
+Proof.
+  intros Hok. rewrite <- forallb_no_fault_erase, (stringhash_refines_reentrant ops Hok), forallb_no_fault_erase.
+  apply s_run_no_fault.
+Qed.
 
 (* deletion removes exactly the given key and keeps every other entry reachable *)
 Lemma s_lookup_remove_other es k k' : k' <> k -> s_lookup (s_remove es k) k' = s_lookup es k'.
@@ -557,8 +736,82 @@ Qed.
 (* every reachable concrete hash satisfies the coupling invariant *)
 Theorem stringhash_inv ops : ops_ok ops = true -> exists sp, hrel (fst (run [] ops)) sp.
 Proof.
-  intros Hok. exists (fst (s_run [] ops)). apply (run_sim ops [] []); [constructor|exact Hok].
+  intros Hok. exists (fst (s_run [] ops)). apply (run_sim_erase ops [] []); [constructor|exact Hok].
 Qed.
+
+(* ---- what the abstract iteration guarantees ---- *)
+
+(* an iteration that ran to its end - or was stopped by AllPair / AnyPair - has handed out, in order and once each,
+   the entries the map held when it started (all of them unless stopped), whatever the callback did meanwhile *)
+Lemma s_iter_loop_visits kind : forall pend h acts acc h' ks vs b,
+  s_iter_loop kind h pend acts acc = (h', RIter ks vs b) ->
+  exists m st, RIter ks vs b = iter_out kind (acc ++ firstn m pend) st /\
+               (m <= length pend)%nat /\ (st = false -> m = length pend).
+Proof.
+  induction pend as [|e r IH]; intros h acts acc h' ks vs b; cbn [s_iter_loop].
+  - intros H. inversion H as [[Hh Ho]]. exists 0%nat, false. cbn [firstn length]. rewrite app_nil_r. auto.
+  - destruct (next_act acts) as [a stop]. destruct (s_act_step h a) as [h1 o1].
+    destruct o1; try discriminate.
+    all: destruct (stops kind stop) eqn:Es;
+      [ intros H; inversion H as [[Hh Ho]]; exists 1%nat, true; cbn [firstn length];
+        split; [reflexivity|split; [lia|discriminate]]
+      | intros H; destruct (IH _ _ _ _ _ _ _ H) as (m & st & Ho & Hm & Hst); exists (S m), st;
+        cbn [firstn length]; rewrite <- app_assoc in Ho; cbn [app] in Ho;
+        split; [exact Ho|split; [lia|intros E; now rewrite (Hst E)]] ].
+Qed.
+
+Theorem s_iterate_visits_start_entries kind h acts h' ks vs b :
+  s_iterate kind h acts = (h', RIter ks vs b) ->
+  exists m st, RIter ks vs b = iter_out kind (firstn m (sents h)) st /\
+               (m <= length (sents h))%nat /\ (st = false -> m = length (sents h)).
+Proof. intros H. exact (s_iter_loop_visits kind (sents h) h acts [] h' ks vs b H). Qed.
+
+(* EachKey / EachPair / EachValue cannot be stopped: every entry present at the start is handed out *)
+Lemma s_iter_loop_each kind : stops kind true = false -> forall pend h acts acc h' ks vs b,
+  s_iter_loop kind h pend acts acc = (h', RIter ks vs b) -> RIter ks vs b = iter_out kind (acc ++ pend) false.
+Proof.
+  intros Hk. assert (Hs : forall x, stops kind x = false) by (destruct kind; try discriminate; reflexivity).
+  induction pend as [|e r IH]; intros h acts acc h' ks vs b; cbn [s_iter_loop].
+  - intros H. inversion H as [[Hh Ho]]. now rewrite app_nil_r.
+  - destruct (next_act acts) as [a stop]. destruct (s_act_step h a) as [h1 o1]. rewrite Hs.
+    destruct o1; try discriminate.
+    all: intros H; rewrite (IH _ _ _ _ _ _ _ H), <- app_assoc; reflexivity.
+Qed.
+
+Theorem s_each_visits_all kind h acts h' ks vs b : stops kind true = false ->
+  s_iterate kind h acts = (h', RIter ks vs b) -> RIter ks vs b = iter_out kind (sents h) false.
+Proof. intros Hk H. exact (s_iter_loop_each kind Hk (sents h) h acts [] h' ks vs b H). Qed.
+
+(* deletion from inside the callback keeps every other entry reachable: a key no callback deletes answers after
+   the iteration as it did before (whether the iteration ran to its end, was stopped, or left by a panic) *)
+Definition act_spares (k' : str) (a : act) : bool :=
+  match a with ANone => true | ADel k => negb (str_eqb k' k) | _ => false end.
+
+Lemma s_iter_loop_delete_keeps_others kind k' : forall pend h acts acc,
+  forallb (fun a => act_spares k' (fst a)) acts = true ->
+  s_lookup (sents (fst (s_iter_loop kind h pend acts acc))) k' = s_lookup (sents h) k'.
+Proof.
+  induction pend as [|e r IH]; intros h acts acc Hsp; cbn [s_iter_loop]; [reflexivity|].
+  assert (Hn : act_spares k' (fst (next_act acts)) = true /\
+               forallb (fun a => act_spares k' (fst a)) (tl acts) = true).
+  { destruct acts as [|a0 r0]; cbn [next_act tl forallb fst] in *; [auto|now apply andb_true_iff in Hsp]. }
+  destruct Hn as [Ha Ht]. destruct (next_act acts) as [a stop]. cbn [fst] in Ha.
+  destruct a; try discriminate; cbn [s_act_step].
+  - destruct (stops kind stop); [reflexivity|]. now apply IH.
+  - cbn [act_spares] in Ha. apply negb_true_iff, str_eqb_neq in Ha.
+    unfold s_delete. destruct (sfrozen h); [reflexivity|].
+    destruct (s_lookup (sents h) k) as [old|].
+    + destruct (stops kind stop); cbn [fst sents]; [|rewrite IH by exact Ht; cbn [sents]];
+        now apply s_lookup_remove_other.
+    + destruct (stops kind stop); [reflexivity|]. now apply IH.
+Qed.
+
+Theorem s_iterate_delete_keeps_others kind h acts k' :
+  forallb (fun a => act_spares k' (fst a)) acts = true ->
+  s_lookup (sents (fst (s_iterate kind h acts))) k' = s_lookup (sents h) k'.
+Proof. intros H. now apply s_iter_loop_delete_keeps_others. Qed.
+
+
 
 (* the guard is needed: a mapping function that puts the computed key itself leaves the hash with two entries for
    it (stringhash.go:136-138 appends without looking again); Delete then removes the second one and the index
